@@ -481,13 +481,20 @@ bool IP::matches_response(const uint8_t* ptr, uint32_t total_sz) const {
         const uint8_t* pkt_ptr = ptr + sizeof(ip_header);
         uint32_t pkt_sz = total_sz - sizeof(ip_header);
         // It's an ICMP dest unreachable
-        if (pkt_sz > 4 && pkt_ptr[0] == 3) {
-            pkt_ptr += 4;
-            pkt_sz -= 4;
+        if (pkt_sz > 8 && pkt_ptr[0] == 3) {
+            // Skip the 8 byte ICMP header: the offending datagram's header follows
+            pkt_ptr += 8;
+            pkt_sz -= 8;
             // If our IP header is in the ICMP payload, then it's the same packet.
             // This keeps in mind checksum and IP identifier, so I guess it's enough.
-            if (pkt_sz >= sizeof(header_) && memcmp(&header_, pkt_ptr, sizeof(ip_header))) {
-                return true;
+            // (fields that routers rewrite, such as TTL and checksum, are not compared)
+            if (pkt_sz >= sizeof(header_)) {
+                ip_header quoted;
+                memcpy(&quoted, pkt_ptr, sizeof(quoted));
+                if (quoted.saddr == header_.saddr && quoted.daddr == header_.daddr &&
+                    quoted.id == header_.id && quoted.protocol == header_.protocol) {
+                    return true;
+                }
             }
         }
     }
